@@ -5,21 +5,22 @@ VERIF = '/verif'
 props = [json.loads(l) for l in open(os.path.join(VERIF, 'properties.jsonl'))]
 ids = [p['id'] for p in props]
 
-# property -> (technique, level text, level note, design ref)
-CLAIMED = {
- 'C14': ('Coq proof of the threshold rules + bit-exact model/implementation correspondence',
-         'Kernel-checked theorems (Props/C14.v, closed under the global context) about the Gallina model of the '
-         'classical (abs/min) and symmetric strength kernels and of the Python tail: iff-characterisations with the '
-         'row maximum as least upper bound, pattern containment, monotonicity in theta, theta=0, entries in [0,1], '
-         'row maximum 1, nonzero diagonal kept -- for every matrix over any ordered field.  The same Gallina '
-         'definitions are evaluated (vm_compute) at PrimFloat and Q on the inputs the rebuilt working-tree kernels '
-         'and pyamg.strength ran on and must agree bit-for-bit; an independent dense oracle decides the property '
-         'on every generated case and supplies the failing input.',
-         'Exact-arithmetic theorems; float behaviour only through the bit-exact correspondence.  Other measures '
-         '(evolution, energy, distance, affinity, algebraic distance), BSR reductions and complex data: common '
-         'contract decided by the oracle only.  Trusted: Coq kernel + vm_compute, harness, minipb rebuild, SciPy '
-         'csr construction / eliminate_zeros / csr_scale_rows.', 'DESIGN.md section 3, C14'),
-}
+import sys, importlib
+sys.path.insert(0, VERIF)
+CLAIMED = {}
+for i in ids:
+    if os.path.exists(os.path.join(VERIF, 'pv', 'props', i.lower() + '.py')):
+        src = open(os.path.join(VERIF, 'pv', 'props', i.lower() + '.py')).read()
+        ns = {}
+        # evaluate only the leading constant assignments (no imports of numpy needed)
+        import ast
+        tree = ast.parse(src)
+        for node in tree.body:
+            if isinstance(node, ast.Assign) and isinstance(node.targets[0], ast.Name) and \
+                    node.targets[0].id in ('TECHNIQUE', 'LEVEL_TEXT', 'LEVEL_NOTE'):
+                ns[node.targets[0].id] = ast.literal_eval(node.value)
+        if len(ns) == 3:
+            CLAIMED[i] = (ns['TECHNIQUE'], ns['LEVEL_TEXT'], ns['LEVEL_NOTE'], 'DESIGN.md section 3, ' + i)
 NA = {}
 
 checks = []
